@@ -440,6 +440,49 @@ def run_side(ctx, sub, args):
     return d, ""
 
 
+def judge_e2e(path, seed, n):
+    """direct oracle of the end-to-end leg (real RockDB, ownership of engine keys known by construction)"""
+    fails, hist, evals = [], {}, 0
+    if not os.path.exists(path):
+        return fails, hist, evals
+    for line in open(path):
+        r = json.loads(line)
+        key = "e2e %s %s" % (r["policy"], r["op"] or "?")
+        hist[key] = hist.get(key, 0) + 1
+        evals += 1
+        why = []
+        rem, own, meta = set(r.get("removed") or []), set(r.get("owned") or []), set(r.get("metaowned") or [])
+        if r.get("err"):
+            why.append("operation failed: " + r["err"])
+        if r.get("changed"):
+            why.append("engine values of keys outside the addressed collection changed: %s" % r["changed"][:3])
+        if (r.get("op") or "").startswith("rejected"):
+            if rem:
+                why.append("a rejected write removed engine keys: %s" % sorted(rem)[:3])
+            if len(r.get("added") or []) != 1:
+                why.append("a rejected write followed by one string set elsewhere created %d engine keys instead of 1: %s"
+                           % (len(r.get("added") or []), (r.get("added") or [])[:4]))
+        else:
+            if r.get("added"):
+                why.append("a range operation created engine keys: %s" % r["added"][:3])
+            if r["policy"] == "local" or r["op"] in ("DeleteTableRange", "DelKeys"):
+                if rem != own:
+                    why.append("removed engine keys != keys of the addressed collection(s): not removed %s, removed but foreign %s"
+                               % (sorted(own - rem)[:3], sorted(rem - own)[:3]))
+            else:
+                if not rem <= own:
+                    why.append("removed engine keys of another collection: %s" % sorted(rem - own)[:3])
+                if not meta <= rem:
+                    why.append("meta record of the addressed collection not removed: %s" % sorted(meta - rem)[:3])
+        for l in r.get("logical") or []:
+            why.append(l)
+        if why and len(fails) < 20:
+            fails.append(dict(name="e2e-" + r["id"], ids=[], what="; ".join(why)[:1500],
+                              case=dict(e2e=dict(seed=seed, n=n), id=r["id"], policy=r["policy"], op=r["op"], targets=r.get("targets"),
+                                        members=r.get("members"), removed=r.get("removed"), owned=r.get("owned"))))
+    return fails, hist, evals
+
+
 def evaluate(d):
     cases = parse_cases(os.path.join(d, "cases.tsv"))
     impl, _ = vlib.read_out(os.path.join(d, "impl.out"))
@@ -457,6 +500,11 @@ def run(ctx):
         log("BUILD FAILED (harness codec):\n" + out[-3000:])
         raise SystemExit(2)
     vlib.regen_consts("Codec", "codec")
+    # the model files first and on their own: they must be available to the extraction even when a proof breaks
+    mdl_ok, mdl_out, _ = vlib.coq_make(["Codec/Keys.vo", "Codec/RangeOps.vo", "Codec/Spec.vo"])
+    if not mdl_ok:
+        log("MODEL DOES NOT COMPILE:\n" + vlib.tail_err(mdl_out))
+        raise SystemExit(2)
     proofs_ok, info = ctx.check_proofs(make_targets=["Codec/Proofs.vo", "Properties/C12.vo"],
                                        gate_paths=["Codec", "Common", "Properties/C12"])
     mok, mout, _ = vlib.model_build("Codec")
@@ -464,23 +512,27 @@ def run(ctx):
         log("MODEL BUILD FAILED:\n" + mout[-3000:])
         raise SystemExit(2)
 
-    worlds, n = (4, 1500) if quick else (120, 40000)
-    runs = []
+    worlds, n, ne2e = (4, 1500, 30) if quick else (120, 40000, 600)
+    runs = []      # (subdir, harness args, (e2e seed, e2e scenarios) or None)
     if ctx.replay:
         rp = json.load(open(ctx.replay))
-        lines = rp.get("case", {}).get("cases_tsv") or rp.get("cases_tsv") or []
-        path = os.path.join(ctx.run_dir, "replay_cases.tsv")
-        with open(path, "w") as f:
-            for line in lines:
-                f.write(line + "\n")
-        runs.append(("replay", "-replay %s" % path))
+        e2 = (rp.get("case") or {}).get("e2e")
+        if e2:
+            runs.append(("replay", "-seed %d -worlds 0 -n 0 -e2e %d" % (e2["seed"], e2["n"]), (e2["seed"], e2["n"])))
+        else:
+            lines = rp.get("case", {}).get("cases_tsv") or rp.get("cases_tsv") or []
+            path = os.path.join(ctx.run_dir, "replay_cases.tsv")
+            with open(path, "w") as f:
+                for line in lines:
+                    f.write(line + "\n")
+            runs.append(("replay", "-replay %s" % path, None))
     else:
         for i, cp in enumerate(sorted(glob.glob(os.path.join(vlib.VERIF, "corpus", "C12", "*.tsv")))):
-            runs.append(("corpus%d" % i, "-replay %s" % cp))
-        runs.append(("fresh", "-seed %d -worlds %d -n %d" % (ctx.seed, worlds, n)))
+            runs.append(("corpus%d" % i, "-replay %s" % cp, None))
+        runs.append(("fresh", "-seed %d -worlds %d -n %d -e2e %d" % (ctx.seed, worlds, n, ne2e), (ctx.seed, ne2e)))
 
     all_mism, all_fail, total, evals, hist_all, samples, distinct, nan_cases = [], [], 0, 0, {}, [], set(), 0
-    for sub, args in runs:
+    for sub, args, e2 in runs:
         d, err = run_side(ctx, sub, args)
         if d is None:
             log("HARNESS/MODEL RUN FAILED:\n" + err[-3000:])
@@ -493,6 +545,13 @@ def run(ctx):
         all_fail += o.fails
         total += cnt
         evals += o.evals
+        if e2:
+            ef, eh, ee = judge_e2e(os.path.join(d, "e2e.jsonl"), e2[0], e2[1])
+            all_fail += ef
+            evals += ee
+            total += ee
+            for k, v in eh.items():
+                hist_all[k] = hist_all.get(k, 0) + v
         nan_cases += o.nan_cases
         distinct |= {vlib.case_hash(repr(x)) for x in o.nontrivial}
         for k, v in o.hist.items():
@@ -504,10 +563,11 @@ def run(ctx):
         log("ORACLE FAIL %s: %s %s" % (f["name"], f["what"], json.dumps({k: v for k, v in f["case"].items() if k != "cases_tsv"})[:600]))
 
     def search():
-        d2, err = run_side(ctx, "search", "-seed %d -worlds %d -n %d" % (ctx.seed + 1000003, 40, 12000))
+        sseed = ctx.seed + 1000003
+        d2, err = run_side(ctx, "search", "-seed %d -worlds %d -n %d -e2e %d" % (sseed, 40, 12000, 200))
         if d2 is None:
             return []
-        return evaluate(d2)[2].fails
+        return evaluate(d2)[2].fails + judge_e2e(os.path.join(d2, "e2e.jsonl"), sseed, 200)[0]
 
     vlib.standard_verdict(ctx, proofs_ok, all_mism, all_fail, search_fn=search,
                           corr_name="coq/Codec/{MemCmp,Keys}.v vs rockredis memcomparable codec and key encoders/decoders/range builders")
@@ -521,6 +581,15 @@ def run(ctx):
              "bytes, embedded encodings, lengths around the 8-byte groups) — judged for pairwise distinctness, range containment/exclusion "
              "(collection, score, table, whole-table delete, meta ranges) and order. Free-form cases (ids xN): every encoder/decoder on "
              "arbitrary bytes incl. mutated/truncated encodings, all float classes, int64 edges, tuples, u16 wrap-around lengths. "
+             "RD cases: the engine's forward range iterator with all four open/closed bound types over collection ranges (the empty "
+             "member's key equals the range start). End-to-end leg (histogram keys 'e2e <policy> <op>'): a real RockDB (mem engine) under "
+             "both expiry policies is populated with collections of every type (kv, hash, set, zset, list, bitmap) under adversarial "
+             "(table, key, member) names incl. the EMPTY member and boundary-byte members; before/after every clear / multi-clear / "
+             "remove-all-by-rank/score / key delete / whole-table delete the raw engine content is listed and judged against ownership "
+             "known by construction: exactly the addressed collection's engine keys disappear, every other key and value is "
+             "byte-identical, the cleared collection reads empty and, re-created with one fresh member, shows exactly that member; "
+             "a multi-member write rejected at its last member leaves nothing behind, neither at once nor when the next write on another "
+             "key commits the shared batch (HMSET, a batchable command, is aborted by the caller as the apply loop does). "
              "Non-trivial = distinct engine keys of the worlds + distinct non-empty codec inputs; evaluations = oracle predicates evaluated.",
         histogram=hist_all,
         mismatches=len(all_mism),
